@@ -40,11 +40,14 @@ class SHADEDeme(AbstractDeme):
     def run_metaepoch(self, tree) -> None:
         epoch_counter = 0
         metaepoch_generations = []
+        # Each generation is bred from the one before it, also inside a metaepoch of several generations.
+        parents = self.current_population
         while epoch_counter < self._generations:
-            offspring = self._shade.run(self.current_population)
+            offspring = self._shade.run(parents)
 
             epoch_counter += 1
             metaepoch_generations.append(offspring)
+            parents = offspring
 
             if tree._gsc(tree):
                 self._history.append(metaepoch_generations)
